@@ -157,13 +157,19 @@ def observable(n):
 # Derived facts
 # --------------------------------------------------------------------------
 
+_JSON_CACHE = {}
+
+
 def norm(v):
-  if isinstance(v, dict) and not isinstance(v, pg.Symbolic):
+  if isinstance(v, pg.Symbolic):
+    r = _JSON_CACHE.get(id(v))
+    if r is None:
+      r = _JSON_CACHE[id(v)] = ('sym', type(v).__name__, repr(pg.to_json(v)))
+    return r
+  if isinstance(v, dict):
     return {str(k): norm(x) for k, x in v.items()}
   if pg.MISSING_VALUE == v:
     return 'MISSING'
-  if isinstance(v, pg.Symbolic):
-    return ('sym', type(v).__name__, repr(pg.to_json(v)))
   if isinstance(v, (list, tuple)):
     return [norm(x) for x in v]
   return repr(v)
@@ -199,18 +205,31 @@ def facts(x):
   return {name: fn(x) for name, fn in FACTS}
 
 
-def all_facts(root):
-  return {keys: facts(n) for keys, n in sym_nodes(root)}
+def all_facts(root, focus=None):
+  _JSON_CACHE.clear()   # ids are only stable while the tree is untouched
+  try:
+    return {keys: facts(n) for keys, n in sym_nodes(root)
+            if focus is None or keys in focus}
+  finally:
+    _JSON_CACHE.clear()
 
 
 def fresh_copy(root):
   return pg.from_json(pg.to_json(root), allow_partial=True)
 
 
-def stale_facts(root):
-  """[(node_keys, fact_name, got, want)] comparing to a deserialized copy."""
-  got = all_facts(root)
-  want = all_facts(fresh_copy(root))
+ALL_NODES = [False]   # thorough tier: compare facts at every node
+
+
+def stale_facts(root, focus=None):
+  """[(node_keys, fact_name, got, want)] comparing to a deserialized copy.
+
+  focus: key tuples of the nodes to compare (None = all nodes).
+  """
+  if ALL_NODES[0]:
+    focus = None
+  got = all_facts(root, focus)
+  want = all_facts(fresh_copy(root), focus)
   out = []
   for keys, f in got.items():
     w = want.get(keys)
@@ -230,6 +249,7 @@ def stale_facts(root):
 #   src    statement(s) using `n`
 #   exp    [(relkeys_from_n, post)] expected changed locations; post is
 #          'SET' (new value is what is at the same location afterwards),
+#          'INS' (like SET, for an inserted list element: old is MISSING),
 #          'DEL' (removed -> MISSING_VALUE), or ('AT', relkeys) (new value is
 #          found at another location afterwards, for lists that shifted)
 #   nochange   True when the call must not produce any event
@@ -266,7 +286,7 @@ def _int_leaves(n, rel=()):
   for k, v in n.sym_items():
     if isinstance(v, pg.Symbolic):
       out += _int_leaves(v, rel + (k,))
-    elif isinstance(v, int):
+    elif isinstance(v, int) and not isinstance(v, bool):
       out.append(rel + (k,))
   return out
 
@@ -281,6 +301,8 @@ def dict_ops(at, n, r, nvals):
   newkey = None if has_spec and not any(
       isinstance(f.key, pg.typing.NonConstKey)
       for f in n.value_spec.schema.fields.values()) else 'nk'
+  while newkey in keys:
+    newkey += 'x'
   for k in ([keys[0], keys[-1]] if len(keys) > 1 else keys):
     for v in _vals(r, nvals, _field_int_only(n, k)):
       add('dict.setitem/existing-key', f'n[{k!r}] = {v}', [((k,), 'SET')])
@@ -436,7 +458,7 @@ def list_ops(at, n, r, nvals):
   v = lambda: _vals(r, 1)[0]
   for val in _vals(r, nvals):
     add('list.append', f'n.append({val})', [((ln,), 'SET')])
-  add('list.insert/front', f'n.insert(0, {v()})', [((0,), 'SET')])
+  add('list.insert/front', f'n.insert(0, {v()})', [((0,), 'INS')])
   add('list.insert/beyond-end', f'n.insert({ln + 5}, {v()})', [((ln,), 'SET')])
   a, b = v(), v()
   add('list.extend', f'n.extend([{a}, {b}])',
@@ -458,7 +480,7 @@ def list_ops(at, n, r, nvals):
       add('list.rebind/delete', f'n.rebind({{{i}: pg.MISSING_VALUE}})',
           [((i,), 'DEL')])
       add('list.rebind/insertion', f'n.rebind({{{i}: pg.Insertion({v()})}})',
-          [((i,), 'SET')])
+          [((i,), 'INS')])
       add('list.setitem/same-object', f'n[{i}] = n.sym_getattr({i})', [],
           nochange=True)
     add('list.setitem/negative-index', f'n[-1] = {v()}', [((ln - 1,), 'SET')],
@@ -468,13 +490,13 @@ def list_ops(at, n, r, nvals):
     add('list.pop/last', 'n.pop()', [((ln - 1,), 'DEL')])
     add('list.pop/negative-index', 'n.pop(-1)', [((ln - 1,), 'DEL')])
     add('list.insert/negative-index', f'n.insert(-1, {v()})',
-        [((ln - 1,), 'SET')], negative=True)
+        [((ln - 1,), 'INS')], negative=True)
     first = n.sym_getattr(0)
     if not isinstance(first, pg.Symbolic):
       add('list.remove', f'n.remove({first!r})', [((0,), 'DEL')])
     # Slices.
     add('list.setitem/slice-grow', f'n[0:1] = [{a}, {b}]',
-        [((0,), 'SET'), ((1,), 'SET')], slice_insert={1})
+        [((0,), 'SET'), ((1,), 'INS')])
     add('list.setitem/slice-same-size', f'n[0:1] = [{a}]', [((0,), 'SET')])
     add('list.reverse', 'n.reverse()',
         [((i,), 'SET') for i in range(ln)
@@ -485,7 +507,7 @@ def list_ops(at, n, r, nvals):
       ch = [((i,), 'SET') for i in range(ln) if want[i] != n.sym_getattr(i)]
       add('list.sort', 'n.sort(reverse=True)', ch, nochange=not ch)
   if ln >= 2:
-    add('list.insert/middle', f'n.insert(1, {v()})', [((1,), 'SET')])
+    add('list.insert/middle', f'n.insert(1, {v()})', [((1,), 'INS')])
     add('list.setitem/slice-shrink', f'n[0:2] = [{a}]',
         [((0,), 'SET'), ((1,), 'DEL')])
     add('list.setitem/slice-delete-tail', 'n[1:] = []',
@@ -496,7 +518,7 @@ def list_ops(at, n, r, nvals):
         [((0,), 'DEL'), ((ln - 1,), ('AT', (ln - 2,)))])
     add('list.rebind/batch-insert+set',
         f'n.rebind({{0: pg.Insertion({a}), {ln - 1}: {c}}})',
-        [((0,), 'SET'), ((ln - 1,), ('AT', (ln,)))])
+        [((0,), 'INS'), ((ln - 1,), ('AT', (ln,)))])
     add('list.setitem/slice-step',
         'n[::2] = [' + ', '.join(v() for _ in range((ln + 1) // 2)) + ']',
         [((i,), 'SET') for i in range(0, ln, 2)])
@@ -561,23 +583,26 @@ def run_step(rec, tree, root, history, op, mode, tag, check_facts=True):
     target = n if len(rel) == 1 else resolve(n, rel[:-1])
     old = target.sym_getattr(rel[-1], MISSING) if target.sym_hasattr(
         rel[-1]) else MISSING
+    if post == 'INS':   # inserted list element: nothing was there before
+      old, post = MISSING, 'SET'
     exp.append((at + tuple(rel), post, old, target))
-  silent = mode in ('disabled', 'skip') or op.get('nochange')
   pre_nodes = sym_nodes(root)
   pre_ids = {id(x): keys for keys, x in pre_nodes}
-  receivers = {}   # id -> (keys, node, [(abs, post, old)])
+  chains = []   # per expected location: observers-to-be, nearest first
   for abs_keys, post, old, target in exp:
+    chain = []
     t = target
     while t is not None:
       tk = tuple(t.sym_path.keys)
       if op.get('notify_parents') is False and not (
           tk == at or is_strict_desc(tk, at)):
         break
+      # The attribute dict of an object is not a node of its own.
       if not (isinstance(t, pg.Dict) and t.sym_parent is not None and
               tuple(t.sym_parent.sym_path.keys) == tk):
-        receivers.setdefault(id(t), (tk, t, []))[2].append(
-            (abs_keys, post, old))
+        chain.append((tk, t))
       t = t.sym_parent
+    chains.append(chain)
   # --- execute -------------------------------------------------------------
   lines = op_src_lines(op, mode)
   del LOG[:]
@@ -588,6 +613,24 @@ def run_step(rec, tree, root, history, op, mode, tag, check_facts=True):
     err = e
   log = list(LOG)
   del LOG[:]
+  # A location whose value is the very same object as before did not change
+  # (e.g. `x.u = None` while it is None, an int rebound to the same int).
+  receivers = {}   # id -> (keys, node, [(abs, post, old)])
+  if err is None:
+    for (abs_keys, post, old, _), chain in zip(exp, chains):
+      if post != 'DEL' and MISSING != old:
+        loc = abs_keys if post == 'SET' else (
+            abs_keys[:-len(post[1])] + post[1])
+        try:
+          if resolve(root, loc[:-1]).sym_getattr(loc[-1]) is old:
+            continue
+        except Exception:  # pylint: disable=broad-except
+          pass
+      for tk, t in chain:
+        receivers.setdefault(id(t), (tk, t, []))[2].append(
+            (abs_keys, post, old))
+  silent = (mode in ('disabled', 'skip') or op.get('nochange') or
+            not receivers)
   hist_lines = [ln for h in history for ln in h]
   key = (tree, tag, tuple(ln for ln in hist_lines), at, op['src'], mode)
 
@@ -606,9 +649,10 @@ def run_step(rec, tree, root, history, op, mode, tag, check_facts=True):
     return False
   stem = op['name']
   suffix = {'normal': '', 'disabled': '|notify_on_change(False)',
-            'nested-enabled': '|notify_on_change(False>True)',
+            'nested-enabled': '',
             'skip': '|skip_notification=True'}[mode]
-  if op.get('nochange') and mode == 'normal':
+  if (op.get('nochange') or not receivers) and mode in (
+      'normal', 'nested-enabled'):
     suffix = '|no-change'
   ok_all = True
 
@@ -680,9 +724,17 @@ def run_step(rec, tree, root, history, op, mode, tag, check_facts=True):
           cid, key, kind == 'ok', f'{lines}: ' + '; '.join(msgs[:4]),
           wit(expect_asserts(receivers, kind)) if kind != 'ok' else '')
   # --- derived facts -------------------------------------------------------
-  if check_facts and mode in ('normal', 'nested-enabled'):
+  if (check_facts and mode in ('normal', 'nested-enabled') and
+      op.get('notify_parents') is not False):
+    # Nodes whose facts can have changed: every ancestor-or-self of a changed
+    # location (all nodes in the thorough tier).
+    focus = set()
+    for abs_keys, _, _, _ in exp:
+      for i in range(len(abs_keys)):
+        focus.add(abs_keys[:i])
+    focus.add(at)
     try:
-      stale = stale_facts(root)
+      stale = stale_facts(root, focus)
     except Exception as e:  # pylint: disable=broad-except
       stale = [((), f'facts-raised {type(e).__name__}: {e}', None, None)]
     if stale:
@@ -807,7 +859,11 @@ def expect_asserts(receivers, kind):
 # --------------------------------------------------------------------------
 
 def _warm(root):
-  all_facts(root)
+  """Queries every memoised fact at every node (so staleness can show)."""
+  for _, n in sym_nodes(root):
+    n.sym_missing()
+    n.sym_nondefault()
+    n.sym_puresymbolic  # pylint: disable=pointless-statement
 
 
 def drv_single_ops(tier, seed):
@@ -817,12 +873,14 @@ def drv_single_ops(tier, seed):
       'vs deserialized copy',
       scope='4 trees (objects with _on_change/_on_bound overrides, Dict/List '
       'with callbacks, partial + pure-symbolic parts, depth<=6) x every '
-      'symbolic node x every list/dict/object mutator (incl. batched and '
+      'symbolic node (facts compared at every ancestor-or-self of a changed '
+      'location in quick, at every node in thorough) x every list/dict/object mutator (incl. batched and '
       'functional rebind, slices, in-place operators, update/setdefault/pop/'
       'popitem/clear/sort/reverse, same-object no-ops) x 3 (quick) / 11 '
       '(thorough) new-value classes; each also under notify_on_change(False), '
       'nested (False>True) and skip_notification=True for one value')
-  nvals = 3 if tier == 'quick' else len(VALUES)
+  nvals = 2 if tier == 'quick' else len(VALUES)
+  ALL_NODES[0] = tier != 'quick'
   r = rng(seed, 'c09-single')
   for tree in TREES:
     proto_ops = gen_ops(build(tree), None, nvals)
@@ -832,7 +890,7 @@ def drv_single_ops(tier, seed):
       _warm(root)
       run_step(rec, tree, root, [], op, 'normal', 'single')
       # Variants with notifications off: once per (op name, node) in quick.
-      mkey = (op['name'], op['at'])
+      mkey = (op['name'], op['at'] if tier != 'quick' else len(op['at']) > 1)
       if mkey in seen_modes and (tier == 'quick' or r.random() < 0.5):
         continue
       seen_modes.add(mkey)
@@ -858,6 +916,7 @@ def drv_histories(tier, seed):
       'second one of 25 sampled; thorough: 600 random histories of length<=7 '
       '+ first step from 60 sampled x second from 80 sampled')
   r = rng(seed, 'c09-hist')
+  ALL_NODES[0] = tier != 'quick'
   n_rand, max_len = (60, 5) if tier == 'quick' else (600, 7)
   n_first, n_second = (12, 25) if tier == 'quick' else (60, 80)
   # Operations whose event/freshness failures are already charged to
@@ -875,7 +934,8 @@ def drv_histories(tier, seed):
       _warm(root)
       history = []
       for _ in range(r.randint(2, max_len)):
-        ops = gen_ops(root, r, 1)
+        ops = [o for o in gen_ops(root, r, 1)
+               if o.get('notify_parents') is not False]
         if not ops:
           break
         op = pick(ops)
@@ -885,7 +945,8 @@ def drv_histories(tier, seed):
           break
         history.append(op_src_lines(op, mode))
     firsts = gen_ops(build(tree), None, 1)
-    firsts = [o for o in firsts if not o.get('nochange')]
+    firsts = [o for o in firsts if not o.get('nochange') and
+              o.get('notify_parents') is not False]
     for f in r.sample(firsts, min(n_first, len(firsts))):
       probe = build(tree)
       _warm(probe)
